@@ -27,12 +27,11 @@ import (
 	"github.com/bitcoin-sv/block-headers-service/verifharness/ev"
 )
 
-// Spec is the check registration. The functions under test are pure, so the fan-out is done
-// with goroutines inside one process (Workers: 0): the body then also owns Rule / Require /
-// Exhaustive, which ev does not carry over from child processes. The sharding below
-// nevertheless honours r.Worker / r.Workers, so the check also works with Workers: -1.
+// Spec is the check registration. One child process per CPU (own heap and GC: the code under
+// test allocates several big.Ints per value); every child takes the cases r.Mine assigns to it.
+// The body also works in-process (replay, Workers: 0): it then fans out over goroutines.
 func Spec() ev.Spec {
-	return ev.Spec{Prop: "C19", Level: "exploration", Workers: 0, Body: body}
+	return ev.Spec{Prop: "C19", Level: "exploration", Workers: -1, Body: body}
 }
 
 const (
@@ -572,8 +571,8 @@ func body(r *ev.Run) {
 			w.flush()
 		}()
 	}
-	for idx, j := range jobs {
-		if r.MineIdx(j.id, idx) {
+	for _, j := range jobs {
+		if r.Mine(j.id) { // hash partition: positive-sign (expensive) and negative-sign batches mix evenly
 			ch <- j
 		}
 	}
@@ -588,6 +587,7 @@ func body(r *ev.Run) {
 			r.Distinct(cellName(i))
 		}
 	}
-	r.Count("cells_visited", visited)
-	r.Count("goroutines", int64(g))
+	if r.Workers <= 1 { // a per-process count; the cross-process figure is distinct_nontrivial
+		r.Count("cells_visited", visited)
+	}
 }
